@@ -229,7 +229,7 @@ def run_shard(acc, shard, nshards, seed, tier):
     from vf.gen import sessions
     known = runner.known_signatures('C10')
     sess = sessions.session(minutes=(60, 200) if tier == 'quick' else (60, 400), max_data=0, warmup=(False,), align_len=True,
-                            program=dict(busy=True, boundary=True, fixed=True, cycle=True, clears=True))
+                            program=dict(busy=True, boundary=True, fixed=True, cycle=True, clears=True, no_update=True))
 
     def chk(spec):
         vios, flags, r = run_case(spec)
